@@ -43,8 +43,27 @@ let has_tok = function Some true -> "1" | Some false -> "0" | None -> "stuck"
 let bkeys ks = Stdlib.List.map bytes_of_hex ks
 let zkeys ks = Stdlib.List.map z_of_hex ks
 
+(* Tier T: the translated source (Gen/RangesGo.v); the list argument is the sorted copy *)
+let go_bool_tok = function GoInt.Val true -> "1" | GoInt.Val false -> "0" | GoInt.Panic -> "panic" | GoInt.Fuel -> "fuel"
+let go_err_tok (e : RangesGo.go_err) =
+  match e with
+  | RangesGo.ENil -> "0" | RangesGo.E_err_invalid_field_number -> "1"
+  | RangesGo.E_err_invalid_range -> "2" | RangesGo.E_err_overlapping_ranges -> "3"
+
+let go_out_err_tok = function GoInt.Val e -> go_err_tok e | GoInt.Panic -> "panic" | GoInt.Fuel -> "fuel"
+
 let handle op args =
   match op, args with
+  | "go_has", kind :: s :: ns ->
+    let s = ranges_of s in
+    Stdlib.List.map (fun n -> go_bool_tok (match kind_of kind with
+      | EnumR -> RangesGo.run_EnumRanges_Has s n | FieldR -> RangesGo.run_FieldRanges_Has s n)) (zkeys ns)
+  | "go_cvalid", [kind; ms; s] ->
+    [go_out_err_tok (match kind_of kind with
+      | EnumR -> RangesGo.run_EnumRanges_CheckValid (ranges_of s)
+      | FieldR -> RangesGo.run_FieldRanges_CheckValid (ranges_of s) (bool_of_tok ms))]
+  | "go_coverlap", [p; q] ->
+    [go_out_err_tok (RangesGo.run_FieldRanges_CheckOverlap (ranges_of p) (ranges_of q))]
   | "has", kind :: l :: ns ->
     Stdlib.List.map has_tok (ranges_has_many (kind_of kind) (ranges_of l) (zkeys ns))
   | "cvalid", [kind; ms; l] ->
